@@ -165,7 +165,9 @@ Prods(sym, rich) ==
          (IF rich THEN {<<X(" "), NT("ValueHead"), NT("ValueRest")>>, <<NT("ValuePiece"), NT("ValueRest")>>} ELSE {}) \cup
          \* a literal percent sign as the last character of a value: the delimiter that ends the value comes right after it
          \* (not in programs with a deleted delimiter, where the next thing could be a name)
-         (IF rich /\ ~AllowFault THEN {<<X("%")>>} ELSE {})
+         \* (likewise a slash that does not open a comment: after a reference, literal or call it is met by the mode
+         \*  dispatcher, not by the text scanner, and the delimiter right after it is still a delimiter)
+         (IF rich /\ ~AllowFault THEN {<<X("%")>>, <<X("/")>>} ELSE {})
     [] sym = "ValuePiece" ->
          \* (a quoted literal glued to a preceding one of the same quote would be one literal with a doubled quote:
          \*  quoted pieces are separated from what precedes them)
